@@ -28,7 +28,8 @@ RULE = ("encode(m, CountingAccessor(G), v, mode) for G = connect_coding_graph(k,
         "row reads <= 4*L*V+8 and steps <= L*V (V = retained vertices), no exception, strand is a walk, last step at a branching vertex, "
         "normal: product of out-degrees before the last step <= value(m), len <= L on t >= 2 graphs and <= ceil(L/2) on the "
         "complete graph; fast: carried bits in {L, L+1}; quotient never increases and strictly decreases at branching "
-        "vertices. Non-trivial: the graph has an out-degree-1 vertex, or t >= 2 and L >= 2; distinct = hash of the case.")
+        "vertices. Non-trivial: the graph has an out-degree-1 vertex, or t >= 2 and L >= 2; distinct = hash of the case."
+        ' Also: the deep-sweep mask corpus with every retained start, one message beyond 2100 bits per few shards under the int<->str trap, and buffer-twin message pairs encoded one after the other.')
 
 TRACE = []
 
